@@ -69,6 +69,7 @@ type FuncContract struct {
 	Approx          []string
 	NDIfaceOnly     bool // "ndmodel interface": ND values are used through the interface contracts only (no static dispatch on a known dynamic type)
 	BoundedNote     string // "bounded <note>": every obligation of this function is counted as bounded (not proved), with this note
+	RowMajorForm    string
 	RowMajor        bool // "ndmodel rowmajor": ND values of unknown dynamic type follow the general-rank interface contracts "iface rowmajor:Method"
 	LocModel        bool
 	SimplifyIDs     bool // "simplify entry-ids"
@@ -381,9 +382,14 @@ func parseFuncDirective(fc *FuncContract, word, rest, file string, line int) {
 		if err != nil {
 			fatalf("%s:%d: bad loop ordinal", file, line)
 		}
-		if f[1] == "instantiate" {
-			// loop N instantiate LABEL(args): a lemma instance assumed at the end of the body
-			fc.Clauses = append(fc.Clauses, &Clause{Kind: "loopinst", Src: strings.TrimSpace(f[2]), Loop: n, File: file, Line: line})
+		if f[1] == "instantiate" || f[1] == "headinstantiate" {
+			// loop N instantiate LABEL(args): a lemma instance assumed at the end of the body;
+			// loop N headinstantiate LABEL(args): assumed at the loop head, after the invariant
+			kind := "loopinst"
+			if f[1] == "headinstantiate" {
+				kind = "loopheadinst"
+			}
+			fc.Clauses = append(fc.Clauses, &Clause{Kind: kind, Src: strings.TrimSpace(f[2]), Loop: n, File: file, Line: line})
 			if i := strings.Index(f[2], "("); i > 0 {
 				fc.Instantiate2 = append(fc.Instantiate2, strings.TrimSpace(f[2][:i]))
 			}
@@ -457,7 +463,11 @@ func parseFuncDirective(fc *FuncContract, word, rest, file string, line int) {
 	case "ndmodel":
 		fc.LocModel = strings.TrimSpace(rest) == "locations"
 		fc.NDIfaceOnly = strings.TrimSpace(rest) == "interface"
-		fc.RowMajor = strings.TrimSpace(rest) == "rowmajor"
+		fc.RowMajor = strings.TrimSpace(rest) == "rowmajor" || strings.HasPrefix(strings.TrimSpace(rest), "rowmajor/")
+		if fc.RowMajor {
+			// "rowmajor/V": interface contracts "iface rowmajor/V:Method" take precedence over "iface rowmajor:Method"
+			fc.RowMajorForm = strings.TrimSpace(rest)
+		}
 	case "atsend":
 		// atsend [label] expr: holds when the goroutine body signals completion (channel send)
 		fc.Clauses = append(fc.Clauses, mk("atsend", rest, -1))
